@@ -319,6 +319,9 @@ Viol(pre, c, r, h) ==
   \cup (IF c.op = "add" /\ ok
            /\ \/ new.w[1] # RoundUp(Pulses[c.p].dur, cfgi.clock)
               \/ (Pulses[c.p].dur % cfgi.clock = 0 /\ new.w # PF[pre.dev][pre.ch[i].cid][c.p].w)
+              \* a lengthened pulse keeps its defining end points (first / last amplitude and detuning)
+              \/ (Pulses[c.p].fin /\ Pulses[c.p].ep /\ (new.w[2] # Pulses[c.p].a0 \/ new.w[3] # Pulses[c.p].a1
+                                      \/ new.w[6] # Pulses[c.p].d0 \/ new.w[7] # Pulses[c.p].d1))
         THEN {"C01.OnlyLengthened"} ELSE {})
   \cup (IF c.op = "add" /\ pre.bld /\ ~IsPar(c) /\ r.out \in {"VE", "TE"} /\ i # 0 /\ ~Measured(pre)
            /\ ~InEom(pre.ch[i]) /\ cfgi.kind # "dmm" /\ c.proto \in Protocols
@@ -366,6 +369,14 @@ Viol(pre, c, r, h) ==
   \* ---- C07 -------------------------------------------------------------
   \cup (IF isAdd /\ new.ti < RefBarrier(pre, bi, lastTg)
         THEN {"C07.Barrier"} ELSE {})
+  \* the time stamped on the next phase shift of an atom is never before the end of a pulse that
+  \* already acted on it in that basis (so that "no pulse starts before the latest shift" is meaningful)
+  \cup (IF post.bld /\ \E b \in 1..Len(post.rf) : \E q \in 1..NQ(post) :
+             \E j \in 1..Len(post.ch) : \E k \in 1..Len(post.ch[j].sl) :
+                /\ CfgOf(post, j).basis = post.rf[b].b
+                /\ post.ch[j].sl[k].k = "p" /\ ~post.ch[j].sl[k].dd /\ HasBit(post.ch[j].sl[k].tg, q)
+                /\ post.rf[b].q[q].lu < post.ch[j].sl[k].tf
+        THEN {"C07.ShiftTimeAfterPulses"} ELSE {})
   \cup (IF isAdd /\ ~cpd /\ c.op \in {"add", "eom_add"}
            /\ LET prog == IF c.op = "add" THEN Pulses[c.p].ph ELSE PMod(c.ph)
                   R == RefPhases(pre, bi, lastTg)
